@@ -148,6 +148,10 @@ func cmdC02(args []string) error {
 		return c02stress(tw, r, cache, &hid, *rounds)
 	case "sched":
 		return c02sched(tw, r, &hid, *ng)
+	case "apreq-stress":
+		return c02apreqStress(tw, r, *rounds)
+	case "apreq-sched":
+		return c02apreqSched(tw, r, *ng)
 	}
 	return fmt.Errorf("unknown mode %s", *mode)
 }
